@@ -96,6 +96,11 @@ video_sink_thread(struct video_sink_s* const self)
 Error:
     LOGE("[stream %d]: SINK: Exiting thread (Error)", self->stream_id);
     self->sig_stop_source(self);
+    // Nobody drains this channel any more. Refuse writes so that a writer
+    // that is (or goes) to sleep waiting for space in channel_write_map()
+    // returns and sees the stop signal; otherwise acquire_stop() never
+    // returns. Writes are accepted again by video_sink_start()/acquire_stop().
+    channel_accept_writes(&self->in, 0);
     channel_read_unmap(&self->in, &self->reader, 0);
     storage_stop(self->storage);
     self->is_running = 0;
